@@ -21,7 +21,9 @@
 (* same monitors on what the real crates did) makes a finding.              *)
 (*                                                                         *)
 (* IOEnv: CT_TIER "quick" | "thorough", CT_OUT (file, "" = none),           *)
-(* CT_VOUT_TRUNC "true" | "false" (behaviour switch of the model)          *)
+(* CT_VOUT_TRUNC "true" | "false" (behaviour switch of the model),         *)
+(* CT_BOUNDS (json written by `committx bounds`: the contest-delay bounds   *)
+(* of the REAL policy and real setup_channel probes around them)            *)
 (***************************************************************************)
 EXTENDS CommitTx, Json, IOUtils, SequencesExt, FiniteSetsExt, Randomization
 
@@ -33,23 +35,55 @@ SW == [voutTruncated |-> IOEnv.CT_VOUT_TRUNC = "true"]
 VALUE == 1000000
 PUSH  == 100000
 ModelOf(ks) == [hc |-> <<1193046 + ks, 11259375>>, ch |-> <<7903932, 5666666 + ks>>]
-Setup(ct, ob, hd, cd, ks, fo) ==
-  [ct |-> ct, outbound |-> ob, hdelay |-> hd, cdelay |-> cd, ks |-> ks, fo |-> fo, value |-> VALUE, push |-> PUSH,
-   of |-> ModelOf(ks)]
+\* hdn / cdn: the NAME of a contest delay that is a boundary value of what setup_channel accepts
+\* ("-": an ordinary number of the matrix)
+SetupD(ct, ob, hd, cd, hdn, cdn, ks, fo) ==
+  [ct |-> ct, outbound |-> ob, hdelay |-> hd, cdelay |-> cd, hdn |-> hdn, cdn |-> cdn, ks |-> ks, fo |-> fo,
+   value |-> VALUE, push |-> PUSH, of |-> ModelOf(ks)]
+Setup(ct, ob, hd, cd, ks, fo) == SetupD(ct, ob, hd, cd, "-", "-", ks, fo)
+
+(***************************************************************************)
+(* The contest-delay dimension by NAME: min = the smallest delay            *)
+(* setup_channel accepts, mid = an ordinary one, max = the largest.  The    *)
+(* numbers are the bounds of the real policy as the harness read them       *)
+(* (CT_BOUNDS); the probes are real setup_channel calls: exactly the delays *)
+(* inside the bounds were accepted, for both delays and every commitment    *)
+(* type - so min and max ARE the boundary values and min-1 / max+1 are      *)
+(* refused.                                                                 *)
+(***************************************************************************)
+Bounds == JsonDeserialize(IOEnv.CT_BOUNDS)
+DelayNames == {"min", "mid", "max"}
+D(name) == CASE name = "min" -> Bounds.min [] name = "mid" -> Bounds.mid [] OTHER -> Bounds.max
+InBounds(d) == Bounds.min <= d /\ d <= Bounds.max
+ProbeOK(p) == p.ok = (InBounds(p.hdelay) /\ InBounds(p.cdelay))
+ASSUME /\ Bounds.min < Bounds.mid /\ Bounds.mid < Bounds.max /\ Bounds.max < 65535
+       /\ \A i \in DOMAIN Bounds.probes : ProbeOK(Bounds.probes[i])
+       \* every commitment type was probed below, at and above both bounds, for both delays
+       /\ \A ct \in {"static", "zerofee"} : \A d \in {Bounds.min - 1, Bounds.min, Bounds.max, Bounds.max + 1} :
+            /\ \E i \in DOMAIN Bounds.probes : Bounds.probes[i].ct = ct /\ Bounds.probes[i].hdelay = d
+            /\ \E i \in DOMAIN Bounds.probes : Bounds.probes[i].ct = ct /\ Bounds.probes[i].cdelay = d
+SetupN(ct, ob, hn, cn, ks, fo) == SetupD(ct, ob, D(hn), D(cn), hn, cn, ks, fo)
 FO1 == [t |-> 1, i |-> 0]
 FO2 == [t |-> 2, i |-> 1]
 FO3 == [t |-> 1, i |-> 65537]      \* an output index beyond 16 bits (LDK's OutPoint cannot hold it)
 BaseSetup(ct) == Setup(ct, TRUE, 6, 7, 1, FO1)
 CTs == {"static", "zerofee"}
+\* every pair of boundary / ordinary contest delays for every commitment type
+DelaySetups(obs) == {SetupN(ct, ob, hn, cn, 1, FO1) : ct \in CTs, ob \in obs, hn \in DelayNames, cn \in DelayNames}
 \* one dimension changed at a time (quick) / the full product (thorough)
 VariedSetups ==
   IF Thorough
-  THEN {Setup(ct, ob, d[1], d[2], ks, fo) : ct \in CTs, ob \in BOOLEAN, d \in {<<6, 7>>, <<7, 6>>, <<144, 2016>>},
+  THEN {Setup(ct, ob, d[1], d[2], ks, fo) : ct \in CTs, ob \in BOOLEAN, d \in {<<6, 7>>, <<7, 6>>},
                                              ks \in {1, 2}, fo \in {FO1, FO2}}
+       \cup DelaySetups(BOOLEAN)
        \cup {Setup(ct, ob, 6, 7, 1, FO3) : ct \in CTs, ob \in BOOLEAN}
-  ELSE UNION {{Setup(ct, FALSE, 6, 7, 1, FO1), Setup(ct, TRUE, 144, 2016, 1, FO1), Setup(ct, TRUE, 6, 7, 2, FO1),
+  ELSE UNION {{Setup(ct, FALSE, 6, 7, 1, FO1), Setup(ct, TRUE, 6, 7, 2, FO1),
                Setup(ct, TRUE, 6, 7, 1, FO2), Setup(ct, TRUE, 6, 7, 1, FO3)} : ct \in CTs}
-FullSetups == IF Thorough THEN {Setup(ct, ob, 6, 7, 1, FO1) : ct \in CTs, ob \in BOOLEAN} ELSE {BaseSetup(ct) : ct \in CTs}
+       \cup DelaySetups({TRUE})
+\* setups that get the FULL mutation matrix on every content
+FullSetups == IF Thorough THEN {Setup(ct, ob, 6, 7, 1, FO1) : ct \in CTs, ob \in BOOLEAN}
+                               \cup {SetupN(ct, TRUE, "max", "max", 1, FO1) : ct \in CTs}
+              ELSE {BaseSetup(ct) : ct \in CTs}
 
 ---------------------------------------------------------------------------
 \* contents
